@@ -202,6 +202,18 @@ CLAIMED = {
         "qualifying-read definition and fraction rule as documented in profile.py",
         "DESIGN.md section 4 C15",
     ),
+    "C13": (
+        "metamorphic runtime monitor: the same RefSeq-level evidence expressed against both builds through the real stages; end to end with reads derived from the database's written notation",
+        "Planted / noisy evidence described in RefSeq terms (noise keyed by RefSeq notation) is expressed in both builds of "
+        "shipped databases (hg19 vs hg38) and of generated databases whose builds use opposite strands and offsets, and "
+        "run through solve_cn_model, estimate_major and estimate_minor; structures, major solutions and scores, minor "
+        "optima (tie-breaker removed via the LP monitor) and reported assignments are compared in RefSeq notation. End "
+        "to end, alignments are simulated against each build from the database's *written* variants through the "
+        "generator's own coordinate maps (independent of aldy's loader), each build is judged by the C01 oracle and the "
+        "two results are compared.",
+        "sites whose variant grouping differs between strands get no noise; scores compared up to the tie-breaker mass",
+        "DESIGN.md section 4 C13",
+    ),
 }
 
 NOT_YET = {}
